@@ -36,7 +36,7 @@ def fencedSep (seps : Str) (i : Nat) : Str :=
   let ss := seps.filter (fun c => !isWs c)
   match ss[i]? with
   | some c => [c]
-  | none => match ss.getLast? with | some c => [c] | none => []
+  | none => if ss.isEmpty then [] else [44]     -- the library's (test-pinned: mfenced_with_separators) choice: ',' once the given separators run out
 
 mutual
 /-- visible token characters of an *input* tree, in document order -/
